@@ -761,3 +761,50 @@ pub fn replay_file(check: &dyn Check, path: &Path) -> i32 {
 
 #[allow(dead_code)]
 fn _unused(_: &dyn Strategy<Value = u8, Tree = Box<dyn ValueTree<Value = u8>>>) {}
+
+/// Decodes a libFuzzer artifact with the generator of the property, shrinks and reports it.
+pub fn fuzz_artifact(check: &dyn Check, path: &Path, seed: u64) -> i32 {
+    install_panic_hook();
+    let bytes = match std::fs::read(path) {
+        Ok(b) => b,
+        Err(e) => harness_error(&format!("{}: {}", path.display(), e)),
+    };
+    let mut d = Dec::new(&bytes);
+    let case = check.generate(&mut d, false);
+    match guard(|| check.check(&case)) {
+        Ok(Ok(_)) => {
+            eprintln!("fuzz artifact {} does not fail the check of {}", path.display(), check.id());
+            0
+        }
+        Ok(Err(f)) => {
+            let (case, f) = shrink_case(check, case, f);
+            let known = load_known_findings();
+            if let Some(k) = known
+                .iter()
+                .find(|k| k.property == check.id() && k.status == "known" && k.kind == f.kind)
+            {
+                println!("KNOWN-FINDING: property={} {}", check.id(), k.what);
+                return 0;
+            }
+            let p = write_replay(check.id(), "libfuzzer", seed, "thorough", &case, &f, Some(&bytes));
+            eprintln!("violation of {}: {}\n  expected: {}\n  observed: {}\n  case: {}", check.id(), f.what, f.expected, f.observed, case.to_json());
+            println!("VIOLATION property={} replay={}", check.id(), p.display());
+            1
+        }
+        Err(p) => harness_error(&format!("harness panic on fuzz artifact: {}", p)),
+    }
+}
+
+/// Adds the statistics of a fuzz campaign (JSON object) to the evidence file of the property.
+pub fn add_fuzz_evidence(check: &dyn Check, stats_json: &str) {
+    let dir = match std::env::var("VERIF_EVIDENCE_DIR") {
+        Ok(d) => PathBuf::from(d),
+        Err(_) => Path::new(VERIF_DIR).join("evidence"),
+    };
+    let path = dir.join(format!("{}.json", check.id()));
+    let Ok(text) = std::fs::read_to_string(&path) else { return };
+    let Ok(mut v) = serde_json::from_str::<Value>(&text) else { return };
+    let stats: Value = serde_json::from_str(stats_json).unwrap_or(Value::Null);
+    v["coverage"]["fuzz"] = stats;
+    let _ = std::fs::write(&path, serde_json::to_string_pretty(&v).unwrap());
+}
